@@ -237,6 +237,7 @@ class Printer:
         self.membermap = unit.get('membermap', {})
         self.freevars = OrderedDict()       # for fragments: decl id -> (name, ctype, isvec)
         self.fragment = False
+        self.byval_free = set()
         self.freevar_kind = {}
         self._ret_target = None
         self.local_ids = set()
@@ -329,6 +330,8 @@ class Printer:
                     self.freevars[rd['id']] = (nm, self.T.c(q, rd['type'].get('desugaredQualType')))
                     self.freevar_kind[rd['id']] = rd['kind']
                 self.fire('expr:free-variable')
+                if rd['id'] in self.byval_free:
+                    return nm
                 return '(*%s)' % nm
             if self.decl_ref.get(rd['id']):
                 self.fire('expr:deref-reference')
@@ -440,6 +443,17 @@ class Printer:
             return 'self->%s' % name
         self.fire('expr:member')
         bs = self.e(b)
+        # member of an object whose class is rendered as a PARTIAL struct (only the members the code touches)
+        try:
+            bct = self.ctype_of(b).rstrip('* ').strip()
+        except ExtractionBreak:
+            bct = None
+        if bct and bct in self.unit.get('partial_structs', []):
+            q, d = self.qt(n)
+            reg = self.unit.get('_selfs', {}).setdefault(bct, OrderedDict())
+            if name not in reg:
+                reg[name] = self.T.c(q, d)
+            self.fire('expr:partial-struct-member')
         return '%s%s%s' % (bs, '->' if n.get('isArrow') else '.', name)
 
     def cast(self, n, implicit):
